@@ -7,6 +7,7 @@
      ret   {res}                                ReceiveBlob returned
      bg    {i}                                  an upload completed after the return
      op    {op: fetch|stat|enum, ..., res, list}  reads
+     op    {op: fetchf, b, down, res}             fetch while the read replicas in `down` fail every call (gate faults)
    The upload outcomes are not given at `start`: TLC infers them (RecvStart chooses, `done` lines prune).
    The C12 invariants are evaluated in every state of every recorded execution. *)
 EXTENDS Replica, TLC, Json, IOUtils
@@ -48,6 +49,7 @@ TRmRet == IsEv("rmret") /\ RemoveRet /\ reply'.res = Ev.res
 
 TOp == /\ IsEv("op")
        /\ CASE Ev.op = "fetch" -> Fetch(Ev.b)
+            [] Ev.op = "fetchf" -> FetchF(Ev.b, SeqSet(Ev.down) \cap Rd)
             [] Ev.op = "stat"  -> Stat(SeqSet(Ev.bs))
             [] Ev.op = "enum"  -> Enumerate(Ev.after, Ev.limit)
        /\ reply'.res = Ev.res
